@@ -1982,10 +1982,13 @@ def table_theorems(run, tab, sweep_findings):
         if ok and fv:
             vs, pos = fv
             binders = " ".join(f"({v} : {t})" for v, t in vs)
+            tpos = [i for i, (fn, _, _) in enumerate(r["formals"]) if fn == "trainable"]
+            # the exporter compares the (arbitrary) value passed for `trainable` with the class default: case analysis on it
+            script = ("intros; destruct v_trainable as [a|l]; [destruct a; try (match goal with b : bool |- _ => destruct b end)|]; raw_rt_tac."
+                      if tpos else "raw_rt_tac.")
             thms.append((f"raw_roundtrip_{n}",
                          f"forall {binders} (g : gate), construct' row_{n} {clist(pos)} [] = OK g -> raw_rt_ok (from_dict' (raw' g)) g",
-                         "raw_rt_tac."))
-            tpos = [i for i, (fn, _, _) in enumerate(r["formals"]) if fn == "trainable"]
+                         script))
             if tpos and n != "Align":
                 # the same with trainable=False passed to the constructor: the import is again a non-trainable gate
                 vs2 = [x for i, x in enumerate(vs) if i != tpos[0]]
